@@ -205,6 +205,30 @@ def rule_refresh(ctx, repo):
                   "Jacobian rebuilt but the cached factorisation is not invalidated before the next solve: " + wit, f.W(ju[0]))
 
 
+def rule_inplace_contract(ctx, repo):
+    """sibling contract of the one-shot entry point: the SuiteSparse back-ends solve in place AND return the solution, the SciPy
+    back-end only returns it (and flattens the right-hand side). A caller that ignores the return value is only correct for some
+    back-ends."""
+    n = 0
+    for rel, mod in repo.modules.items():
+        if not rel.startswith("andes/routines/"):
+            continue
+        for cl in [x for x in mod.body if isinstance(x, ast.ClassDef)]:
+            for fn in [x for x in cl.body if isinstance(x, ast.FunctionDef)]:
+                for st in walk_noscope(fn):
+                    if isinstance(st, ast.Expr) and isinstance(st.value, ast.Call) and (dotted(st.value.func) or "").endswith("solver.linsolve"):
+                        n += 1
+                        ctx.violation("C16.inplace-contract", "%s.%s" % (cl.name, fn.name),
+                                      "`%s` ignores the returned solution and relies on the right-hand side being overwritten in place: true for "
+                                      "KLU/UMFPACK, false for the SciPy back-end (spsolve returns a new, flattened array), so the result depends on "
+                                      "the selected sparse solver" % src(st)[:70], "%s:%d" % (rel, st.lineno))
+                    elif isinstance(st, ast.Assign) and isinstance(st.value, ast.Call) and (dotted(st.value.func) or "").endswith("solver.linsolve"):
+                        n += 1
+                        ctx.ok("C16.inplace-contract", "%s.%s@L%d" % (cl.name, fn.name, st.lineno), "uses the returned solution", "%s:%d" % (rel, st.lineno))
+    if n < 4:
+        raise AnalysisError("solver.linsolve call sites: %d found, 4 confirmed by reading" % n)
+
+
 def rule_facade(ctx, repo):
     i = F.method(repo, "Solver", "__init__", SB)
     ok = Q.has("self.worker = self.__dict__[self.sparselib]", i.fn)
@@ -241,6 +265,7 @@ def run(ctx):
     ctx.rule("C16.singular", "sibling agreement on singular matrices: NaN sentinel in solve and linsolve of every back-end", 3)
     ctx.rule("C16.stale-symbolic", "back-ends whose numeric factorisation does not validate the cached symbolic factor need a "
              "pattern guard in solve() (library contract table confirmed by experiment)", 2)
+    ctx.rule("C16.inplace-contract", "callers of the one-shot entry point use the returned solution (back-ends disagree on in-place)", 4)
     ctx.rule("C16.refresh", "each Jacobian rebuild in a Newton loop is followed by a refresh flag before the solve", 2)
     ctx.rule("C16.ccs", "kvxopt CCS -> scipy csc field order", 1)
     ctx.rule("C16.facade", "facade dispatch and linsolve switch", 6)
@@ -250,4 +275,5 @@ def run(ctx):
     rule_pattern_guard(ctx, repo)
     rule_scipy(ctx, repo)
     rule_refresh(ctx, repo)
+    rule_inplace_contract(ctx, repo)
     rule_facade(ctx, repo)
